@@ -570,6 +570,97 @@ Section Drivers.
   Definition format_cli_fixed (p : list stmt) : doc := flat_map cli_stmt_fixed p.
 End Drivers.
 
+(* ------------------------------------------------------------------ comment re-attachment
+   Pair-level model of the parser's pending-comment bookkeeping (expressions.rs
+   pairs_to_expr_with_comments: Rule::list 1953-2007, Rule::record 2008-2086, Rule::do_block
+   2166-2230), used to state what happens to comment placement when the formatter's own output
+   is parsed again.  Items are abstract (type A): only the comment bookkeeping is modelled. *)
+Section Attach.
+  Context {A : Type}.
+
+  (* the inner pairs of a `list` / `record` pair: `comment`, or `list_item` / `record_item`
+     (= the item and its optional eol_comment) *)
+  Inductive lpair := PComment (c : string) | PItem (x : A) (eol : option string).
+
+  (* the `for pair in list_pairs` loop *)
+  Fixpoint attach_loop (pairs : list lpair) (pending : list string) (elements : list (commented A))
+    : list (commented A) * list string :=
+    match pairs with
+    | [] => (elements, pending)
+    | PComment c :: r => attach_loop r (pending ++ [c]) elements
+    | PItem x eol :: r => attach_loop r [] (elements ++ [Cm pending x eol])
+    end.
+
+  (* "Attach any remaining comments (after the last item) as trailing comments to the last item" *)
+  Definition attach_after_last (elements : list (commented A)) (pending : list string)
+    : list (commented A) :=
+    match pending with
+    | [] => elements
+    | _ =>
+        match rev elements with
+        | [] => elements                        (* no item: the comments are dropped *)
+        | Cm l x tr :: before =>
+            let trailing := sjoin nl pending in
+            rev before ++
+            [Cm l x (match tr with
+                     | Some t => Some (t +++ nl +++ trailing)
+                     | None => Some trailing
+                     end)]
+        end
+    end.
+
+  Definition attach (pairs : list lpair) : list (commented A) :=
+    let (elements, pending) := attach_loop pairs [] [] in attach_after_last elements pending.
+
+  (* The pairs the `list` / `record` rule yields on the layout format_list_multiline /
+     format_record_multiline print: leading comments on their own lines are `comment` pairs; the
+     item is followed directly by "," so it has no eol_comment; a trailing comment is printed
+     AFTER the comma, where the grammar reads it (each of its lines) as a `comment` pair. *)
+  Definition layout_pairs (items : list (commented A)) : list lpair :=
+    flat_map (fun c => map PComment (cleading c) ++ [PItem (cnode c) None] ++
+                       map PComment (trailing_comments (ctrailing c))) items.
+
+  (* what the parser can produce: only the last item has a trailing comment *)
+  Fixpoint only_last_trailing (items : list (commented A)) : bool :=
+    match items with
+    | [] => true
+    | [_] => true
+    | Cm _ _ tr :: r => match tr with None => only_last_trailing r | Some _ => false end
+    end.
+
+  (* grammar constraint on pair sequences: an eol_comment can only follow the last item (a
+     non-last item is followed by "," on the same line) *)
+  Fixpoint eol_only_last (pairs : list lpair) : bool :=
+    match pairs with
+    | [] => true
+    | PComment _ :: r => eol_only_last r
+    | PItem _ None :: r => eol_only_last r
+    | PItem _ (Some _) :: r => forallb (fun p => match p with PComment _ => true | _ => false end) r
+    end.
+
+  (* do-block: `comment` pairs and do_statement pairs (statement + optional comment on the same
+     line, or a comment alone), then the return_statement *)
+  Inductive dpair := DComment (c : string) | DStmt (x : A) (tr : option string).
+  Fixpoint attach_do_loop (pairs : list dpair) (pending : list string) (stmts : list (commented A))
+    : list (commented A) * list string :=
+    match pairs with
+    | [] => (stmts, pending)
+    | DComment c :: r => attach_do_loop r (pending ++ [c]) stmts
+    | DStmt x tr :: r => attach_do_loop r [] (stmts ++ [Cm pending x tr])
+    end.
+  (* statements, and the return expression with the pending comments as its leading comments *)
+  Definition attach_do (pairs : list dpair) (ret : A) : list (commented A) * commented A :=
+    let (stmts, pending) := attach_do_loop pairs [] [] in (stmts, Cm pending ret None).
+
+  (* the pairs the do_block rule yields on format_do_block_multiline's layout, for statements
+     whose trailing comment (if any) the grammar accepts *)
+  Definition do_layout_pairs (stmts : list (commented A)) (ret : commented A) : list dpair :=
+    flat_map (fun c => map DComment (cleading c) ++ [DStmt (cnode c) (ctrailing c)]) stmts ++
+    map DComment (cleading ret).
+End Attach.
+Arguments lpair : clear implicits.
+Arguments dpair : clear implicits.
+
 (* ------------------------------------------------------------------ executable oracles
    Transcription of ast_to_source.rs::expr_to_source / format_record_key, used to RUN the model
    against the implementation.  The theorems never look inside these. *)
@@ -719,3 +810,22 @@ Definition show_odoc (o : option doc) : string :=
 (* positions (start_line, end_line) of the statements in the text the library driver emits *)
 Definition show_positions (l : list (doc * Z * Z)) : string :=
   sjoin "," (map (fun x => hex16 (snd (fst x)) +++ ":" +++ hex16 (snd x)) l).
+
+(* ATTACH stream printers (items are index strings) *)
+Definition show_opt (o : option string) : string :=
+  match o with Some t => hex_of_string t | None => "-" end.
+Definition show_citem (c : commented string) : string :=
+  sjoin "." (map hex_of_string (cleading c)) +++ ":" +++ cnode c +++ ":" +++ show_opt (ctrailing c).
+Definition show_citems (l : list (commented string)) : string := sjoin ";" (map show_citem l).
+Definition show_lpairs (l : list (lpair string)) : string :=
+  sjoin "," (map (fun p => match p with
+                           | PComment c => "C:" +++ hex_of_string c
+                           | PItem x eol => "I:" +++ x +++ ":" +++ show_opt eol
+                           end) l).
+Definition show_dpairs (l : list (dpair string)) : string :=
+  sjoin "," (map (fun p => match p with
+                           | DComment c => "C:" +++ hex_of_string c
+                           | DStmt x tr => "S:" +++ x +++ ":" +++ show_opt tr
+                           end) l).
+Definition show_do (r : list (commented string) * commented string) : string :=
+  show_citems (fst r) +++ "|" +++ show_citem (snd r).
